@@ -27,7 +27,7 @@ ASSUMPTIONS = [
     "after a failed call that named a grid different from the object's previous one, a later timegrid=None call on that object is not judged (which grid the user means is ambiguous)",
     "solvers are deterministic for identical input",
 ]
-REQUIRED_PROBES = ["none_grid_after_foreign_write", "dict_other_zone", "numeric_df_second_grid", "fix_dict_reuse",
+REQUIRED_PROBES = ["sample_list_reused", "none_grid_after_foreign_write", "dict_other_zone", "numeric_df_second_grid", "fix_dict_reuse",
                    "setup_after_failed_split", "inner_asset_after_structured", "serialise_after_chp_setup"]
 
 JUDGED = ("a.setup", "P.setup", "P.split", "P.samples", "g.v2g", "g.p2g")
@@ -272,6 +272,13 @@ def gen_scripts(rng, world, ctx):
         elif r < 0.5:
             st.append({"op": "P.samples", "obj": P, "grid": rng.choice([None, g]),
                        "prices": [ctx["prices"][g][1], ctx["prices"][g][0]][:rng.choice([1, 2])]})
+            if rng.random() < 0.6:
+                # the user keeps ONE list of price samples and hands the same list object to later calls, also on other grids
+                lid = "L%d" % fix_n[0]
+                fix_n[0] += 1
+                st[-1]["list_id"] = lid
+                g2 = rng.choice(grids)
+                st.append({"op": "P.samples", "obj": P, "grid": g2, "prices": st[-1]["prices"], "list_id": lid})
         elif r < 0.6 and can_solve:
             st.append({"op": "io.optimize", "obj": P, "grid": g, "prices": ctx["prices"][g][0],
                        "split": rng.choice([None, None, "d"])})
@@ -544,6 +551,8 @@ class Exec:
         self.M = Model(self.w)
         self.last = {}      # object id -> dict(op, res, grid, prices_obj)
         self.fixes = {}     # fix id -> dict(sys=<dict obj>, I=<tagged>, x=<array>)
+        self.lists = {}     # list id -> the caller's list of price samples (kept and reused by the simulated user)
+        self.lists_used = set()
         self.events = []
         self.stats = {"calls": 0, "judged": 0, "both_raise": 0, "both_raise_diff": 0, "twin_calls": 0,
                       "not_judged_ambiguous": 0, "noop_steps": 0}
@@ -684,7 +693,14 @@ class Exec:
         if explicit is None and twin and gid_eff not in (None, AMBIG):
             self.twin_precondition(B, st["obj"], gid_eff)
         g = B.grid(explicit) if explicit is not None else None
-        return o.create_cost_samples([B.prices(p) for p in st["prices"]], g)
+        if st.get("list_id") and not twin:
+            lst = self.lists.setdefault(st["list_id"], [B.prices(p) for p in st["prices"]])   # the same list object again
+            if len(self.lists) and st["list_id"] in self.lists_used:
+                self.probe("sample_list_reused")
+            self.lists_used.add(st["list_id"])
+        else:
+            lst = [B.prices(p) for p in st["prices"]]
+        return o.create_cost_samples(lst, g)
 
     # ---- judged step
     def judged(self, i, st, sys_fn, twin_fn, gid_eff, judge=True):
